@@ -1,10 +1,12 @@
 (* C19 — Outbound messaging is bounded and isolated: a stuck peer blocks nobody.
    Only property theorems (closed by [exact]), non-vacuity examples and [Print Assumptions].
    Model: Model/StreamPool.v (labelled transition system; "all schedules" = all label lists);
-   proofs: Proofs/StreamPoolProofs.v, Proofs/StreamPoolIndex.v. *)
-From Coq Require Import List NArith Bool.
+   proofs: Proofs/StreamPoolProofs.v, StreamPoolIndex.v, StreamPoolSpec.v, StreamPoolHist.v, StreamPoolSnap.v,
+   StreamPoolFifo.v, StreamPoolFull.v. *)
+From Coq Require Import List NArith Bool Sorted.
 Import ListNotations.
-From AnySync Require Import Model.StreamPool Proofs.StreamPoolProofs Proofs.StreamPoolIndex Proofs.StreamPoolSpec Proofs.StreamPoolHist.
+From AnySync Require Import Model.StreamPool Proofs.StreamPoolProofs Proofs.StreamPoolIndex Proofs.StreamPoolSpec Proofs.StreamPoolHist
+  Proofs.StreamPoolSnap Proofs.StreamPoolFifo Proofs.StreamPoolFull.
 Open Scope N_scope.
 
 (* ---- bounded queues -------------------------------------------------------------------------------- *)
@@ -115,32 +117,71 @@ Proof. exact cleanup_all_schedules. Qed.
 Print Assumptions c19_cleanup.
 
 (* ---- the model and the property predicate over observed histories ------------------------------------------ *)
-(* FULL statement (not proved in Coq; checked by vm_compute on every generated case, where the model's history
-   is required to be EQUAL to the observed one and the observed one to satisfy spec_C19):
-     forall c ops, spec_C19 ops (model_hist c ops) = true.
-   Proved parts:
-   * c19_model_satisfies_spec_partial — the per-observation clauses "the call returned (no fatal / panic / hang in
-     the model)" and "no snapshot shows more than the configured size buffered";
-   * c19_model_satisfies_spec_once (Proofs/StreamPoolHist.v) — the history clauses "Close() of a stream is seen at
-     most once" and "the removal of a stream is seen at most once", over the running observer state of spec_from
-     (c19_spec_implies_once: they are conjuncts of spec_C19); rests on c19_flags_irreversible: in every schedule a
-     stream object never disappears from the heap and its queue.Close / removeStream flags never go back.
-   * c19_model_satisfies_spec_events (Proofs/StreamPoolHist.v) — the whole third conjunct [spec_events] of spec_C19:
-     per stream the MsgSend entry / return log alternates (never a second MsgSend entered on a stream while one
-     has not returned = one writer per stream; every return belongs to the message in flight), and the entries
-     of the log are exactly the takes the FIFO clause reads.  Rests on c19_one_writer_all_schedules (every label
-     sequence, not only [expand]ed ones).
-   Still missing (state-level counterparts: c19_fifo, c19_index_consistent, c19_cleanup):
-   * FIFO over the MsgSend log (needs an invariant over the callers' pending programs: every message still to be
-     written is not older than what any target stream has accepted, and no program survives the operation that
-     started it in an [expand]ed history);
-   * "nothing mentions a removed stream" and the canonicalised-snapshot form of index consistency (both need one more
-     invariant: the keys of streamIdsByPeer / streamIdsByTag are distinct — true because [mset] deletes before it
-     conses, not yet proved through the labels — because [canon_imap] / [snap_mentions] look at every entry of the
-     association list while [idx_inv] speaks through [mget]). *)
-Theorem c19_model_satisfies_spec_partial : forall c ops, forallb obs_static_ok (model_hist c ops) = true.
+(* FULL statement, PROVED (Proofs/StreamPoolFull.v): for every configuration and every list of harness-level
+   operations the model's own history satisfies the whole executable specification — lengths, every clause of
+   [obs_ok] over the running observer state ([spec_from]) and the event clause [spec_events].  (On every generated
+   case the correspondence run additionally requires the model's history to be EQUAL to the observed one.)
+   Ingredients, each also stated separately below:
+   * per-observation clauses "the call returned" / "no snapshot over-full" (c19_model_satisfies_spec_static);
+   * snapshot form of index consistency (c19_snapshot_consistent) and of cleanup (c19_snapshot_cleanup): need the
+     invariant that the keys of streamIdsByPeer / streamIdsByTag are pairwise distinct (c19_index_keys_distinct; [mset]
+     deletes before it conses) because [canon_imap] / [snap_mentions] read every entry of the association lists;
+   * "Close() once, removal once" (c19_model_satisfies_spec_once), one writer per stream (c19_model_satisfies_spec_events);
+   * FIFO over the MsgSend log, "no send issued after the removal reaches a removed stream", "a call never returns the id of
+     a removed stream": invariant over the callers' pending programs and the dial queue of an [expand]ed history
+     (c19_messages_of_operation: during operation i every label of the expansion keeps "every queue's accepted list is
+     nondecreasing and bounded by i; a program / dial job keyed cid <> 0 carries message cid - 1"). *)
+Theorem c19_model_satisfies_spec : forall c ops, spec_C19 ops (model_hist c ops) = true.
+Proof. exact model_hist_spec_ok. Qed.
+Print Assumptions c19_model_satisfies_spec.
+
+(* the per-observation part alone (formerly c19_model_satisfies_spec_partial) *)
+Theorem c19_model_satisfies_spec_static : forall c ops, forallb obs_static_ok (model_hist c ops) = true.
 Proof. exact model_hist_static_ok. Qed.
-Print Assumptions c19_model_satisfies_spec_partial.
+Print Assumptions c19_model_satisfies_spec_static.
+
+(* in every schedule the two index maps, as association lists, have pairwise distinct keys *)
+Theorem c19_index_keys_distinct : forall c tr,
+  NoDup (map fst (by_peer (run (init c) tr))) /\ NoDup (map fst (by_tag (run (init c) tr))).
+Proof. exact reachable_knd. Qed.
+Print Assumptions c19_index_keys_distinct.
+
+(* hence, in every schedule, the canonicalised snapshot (what the verif hook shows) is consistent: every id listed under a
+   peer / tag is a stream of the pool with that peer / with that tag exactly as often as listed, and vice versa *)
+Theorem c19_snapshot_consistent : forall c tr, snap_consistent (snapshot (run (init c) tr)) = true.
+Proof. exact snapshot_consistent_all_schedules. Qed.
+Print Assumptions c19_snapshot_consistent.
+
+(* ... and mentions no stream that has ended (neither as a key of streams nor inside any entry of the two indexes) *)
+Theorem c19_snapshot_cleanup : forall c tr sid st,
+  hget sid (objs (run (init c) tr)) = Some st -> st_removed st = true ->
+  snap_mentions (snapshot (run (init c) tr)) sid = false.
+Proof. exact snapshot_cleanup_all_schedules. Qed.
+Print Assumptions c19_snapshot_cleanup.
+
+(* the invariant behind FIFO over the log: labels of operation i (Broadcast / SendById of caller 0 with message i, Send of
+   caller i+1 with message i, writes of caller i+1, writes of caller 0 once it has started, and every label that is not a
+   caller's) keep every accepted list nondecreasing and bounded by i *)
+Theorem c19_messages_of_operation : forall ls i b s, idx_inv s -> Dop i b s -> ls_ok i b ls ->
+  forall sid st, hget sid (objs (run s ls)) = Some st ->
+    StronglySorted N.le (st_accepted st) /\ Forall (fun m => m <= i) (st_accepted st).
+Proof. exact run_acc_sorted. Qed.
+Print Assumptions c19_messages_of_operation.
+
+(* the history clauses reject what they should: a MsgSend entry older than one already seen on that stream, an entry
+   from the future, an entry of a send issued after the stream's removal, a returned id / a snapshot naming a removed stream *)
+Example c19_history_clauses_nonvacuous :
+  let o := fun ids takes snap => mkObs 0 ids takes [] [] [] snap true in
+  let e := mkSnap [] [] [] in
+  obs_ok (mkOst [(1, 2)] [] []) 7 (o [] [(1, 3)] e) = true
+  /\ obs_ok (mkOst [(1, 5)] [] []) 7 (o [] [(1, 3)] e) = false
+  /\ obs_ok (mkOst [] [] []) 7 (o [] [(1, 8)] e) = false
+  /\ obs_ok (mkOst [] [] [(1, 4)]) 7 (o [] [(1, 4)] e) = true
+  /\ obs_ok (mkOst [] [] [(1, 4)]) 7 (o [] [(1, 6)] e) = false
+  /\ obs_ok (mkOst [] [] [(1, 4)]) 7 (o [1] [] e) = false
+  /\ obs_ok (mkOst [] [] [(1, 4)]) 7 (o [] [] (mkSnap [] [(9, [1])] [])) = false
+  /\ obs_ok (mkOst [] [] []) 7 (o [] [] (mkSnap [(1, mkSview 9 [] 0 1)] [(9, [1; 1])] [])) = false.
+Proof. vm_compute. repeat split. Qed.
 
 (* in every schedule: a stream object stays in the heap, and once its queue is closed / it is removed from the pool
    it stays so (queue.Close and pool.removeStream are irreversible per stream) *)
